@@ -27,13 +27,40 @@ CLAIMED = {
    text="Arbitrary valid state, symbolic RNG words, the real try_sample including rand's random_range: the returned index must own the target (that rand draws from the same words) in the post-order interval layout, so exactly w_i of the total targets map to i; zero-weight indices own no target; errors iff total is zero; no panic.",
    design="§7 C10", technique="Kani/CBMC bounded model checking of try_sample against an interval specification, integer weights, lengths <= 7"),
 }
+CLAIMED.update({
+ "C02": dict(
+   text="Partial, solver-decided necessary conditions of the pmf claim, where reflection / off-by-one / method-switch bugs live: Hypergeometric symmetry reductions map the reduced support onto the documented one (all K,n<=N in bounded and extreme ranges); Binomial method switch and p->1-p flip, BINV state r = q^n for every n (incl. n >= 2^31); StandardGeometric's exact word-interval law; Zipf's normalising constant on both sides of s = 1. The acceptance-probability parts (BTPE, PD, H2PE, rejection-inversion) are law statements outside the technique (level_note).",
+   design="§7 C02", technique="Kani/CBMC bounded model checking of constructor state and bit-level samplers; free logging stubs for the algebraic structure around libm calls",
+   note="NOT decided: that BINV/BTPE/PD/HIN/H2PE/rejection-inversion acceptance tests realise the pmf (probabilities through ln/exp/pow). "),
+ "C05": dict(
+   text="Partial: the one state-carrying loop that can be encoded is bounded by an unwinding assertion that the solver proves (BINV walk <= 112 steps for every first word, from concrete constructor states incl. a deliberately sticking one); every rejection loop in the C03/C12 harnesses is bounded through the RNG word budget with unwinding assertions ON, which proves each trial consumes >= 1 word and lists the words per trial. Mean acceptance rates are probabilities and are not decided.",
+   design="§7 C05", technique="Kani/CBMC unwinding assertions (proved loop bounds) + word-budget bounded rejection loops; counterexample rebuilt from the CBMC trace and replayed natively (hang detection)",
+   note="NOT decided: mean number of trials / acceptance rate not collapsing; BTPE step 5.1 and H2PE step 4.1 walks; HIN loop length. "),
+ "C07": dict(
+   text="For each location/scale family the sampler's algebra around its parameter-free standard quantity g (a libm result or a ziggurat draw) is checked for every parameter value: sample == loc + scale*g bit-for-bit, the libm arguments are the documented ones, the same number of words is consumed whatever the parameters, from_zscore(z) == mean + std_dev*z, precomputed reciprocals equal the documented transform (on concrete shapes). g ranges over a small value set supplied by free logging stubs (any value would do for pure algebra).",
+   design="§7 C07", technique="Kani/CBMC bounded model checking with free logging stubs for libm/ziggurat (uninterpreted standard draw); native replay evaluates the same assertion with the real libm",
+   note="g restricted to {0,-0,+-1,2,1/2,3/4,-3}; Gamma, InverseGaussian, SkewNormal, Triangular, Pert not covered. "),
+ "C08": dict(
+   text="new() on every weight vector of a small length: documented error variants exactly; on Ok the alias table satisfies the mass identity odds[i] + sum_{alias[j]=i}(sum - odds[j]) == len*w_i (so the law is exactly w_i/sum and zero-weight indices carry no mass); weights() returns the vector; sample() == `column if threshold < odds[column] else alias[column]` with the real rand Uniform draws; float weights: error variants, no panic, no sentinel alias left where it can be yielded.",
+   design="§7 C08", technique="Kani/CBMC bounded model checking of the alias construction against the mass identity, lengths <= 3 (quick) / 4 (thorough)"),
+ "C11": dict(
+   text="Partial: Dirichlet::new accepts exactly the documented domain, picks stick-breaking iff all alpha <= 0.1, and its Beta chain is Beta(alpha_i, sum of later alphas) (the reversed cumulative sum index error the property describes) for every alpha vector of length 2..4; the stick-breaking sampler writes every output component (buffer pre-filled with NaN) with values in [0,1] (thorough tier, concrete alpha). Marginal/conditional Beta laws are law statements and are not decided.",
+   design="§7 C11", technique="Kani/CBMC bounded model checking of constructor structure (all alpha bit patterns, len <= 4) and of the stick-breaking sampler",
+   note="NOT decided: Beta marginals; sum-to-one within ulps; lengths 5..64; gamma path sampling. "),
+ "C12": dict(
+   text="Partial: for all four samplers and both float types: a trial consumes exactly 2 (3 for the ball) draws, the acceptance test is exactly decided in the regions |x|<=1/2 (must accept) and |x|>=3/4 (must reject), disc/ball return exactly the accepted candidate, circle/sphere first-trial outputs are NaN-free with the documented sign structure. Uniformity w.r.t. arc length/area is a law statement and is not decided.",
+   design="§7 C12", technique="Kani/CBMC bounded model checking over all candidate words (two trials), acceptance decided by regions",
+   note="NOT decided: uniformity; |norm - 1| within ulps. "),
+ "C14": dict(
+   text="Frame condition instead of self-composition: sample() is wrapped in a function contract modifies(rng) and CBMC's assigns-clause instrumentation checks every write in its call tree against {rng, locals}, for arbitrary parameter values and RNG state (loop-free samplers and UnitDisc). Supported by a scan of the pristine tree for any interior-mutability / static / unsafe site (reported in the evidence; a hit makes the check inconclusive, never a pass).",
+   design="§7 C14", technique="Kani function contracts (assigns-clause / frame checking by CBMC) on sample() wrappers",
+   note="Rejection-loop families with libm calls exhausted memory under the contract instrumentation and are not covered; clone/eq are derived impls (not checked). "),
+})
 NA = {
  "C01": "probability-law statement (measure of sets of streams through ln/exp/pow/tan): not a safety assertion and not bit-blastable; see DESIGN.md §7 C01. Support/NaN (C03), ziggurat exactness (C06), affine algebra (C07) are decided elsewhere.",
  "C13": "the property is an exhaustive enumeration of 2^24 concrete evaluations of real tanf/logf/powf plus a Kolmogorov distance: enumeration of concrete runs is outside solver-based checking; the qualitative half (all 2^24 outputs in the support, no NaN) is decided symbolically under C03.",
  "C15": "proc-macro generated (de)serialisers through a text format: shortest-round-trip float printing/parsing has no useful unwinding bound; see DESIGN.md §7 C15.",
 }
-for pid in ["C02","C05","C07","C08","C11","C12","C14"]:
-    NA[pid] = "harnesses not built yet (work in progress; see DESIGN.md §7 for the plan)"
 
 def main():
     checks = []
